@@ -1,7 +1,7 @@
 """C07 - base-protocol answers echo the identifiers of the request they answer."""
 import ast
 
-from ..astutil import make_cfg, call_name, fn_calls, must_pass, node_calls, walk_no_nested, kwarg
+from ..astutil import strip_doc, make_cfg, call_name, fn_calls, must_pass, node_calls, walk_no_nested, kwarg
 from ..paths import enum_paths, eval_bool
 from .. import psm, cmddict
 
@@ -32,36 +32,45 @@ def check(ctx):
     construct = f"{bp.qual}.create_answer"
     p0 = [a.arg for a in ca.args.args if a.arg != "self"][0]
 
+    # on terms (bsa.sym): REQ = the request; every returning path returns a template T with
+    # T.header.hop_by_hop/end_to_end stored from REQ.header.* and T chosen by REQ.header.command_code
+    from .. import sym
     ctx.clause = "1-identifiers-copied"
-    cfg = make_cfg(repo, ca)
-    rets = [n for n in walk_no_nested(ca) if isinstance(n, ast.Return) and n.value is not None]
-    rv = ast.unparse(rets[0].value) if len(rets) == 1 else None
-    ctx.decide(rv is not None and isinstance(rets[0].value, ast.Name), "R-MUSTDEF/identifiers", construct, bp.where(ca),
-               f"returns the template `{rv}`", "create_answer does not return a single template variable", key="return", nontrivial=False)
-    from ..astutil import field_copy_verdict
-    for f, g in (("hop_by_hop", "end_to_end"), ("end_to_end", "hop_by_hop")):
-        v, detail = field_copy_verdict(cfg, f"{rv}.header.{f}", f"{p0}.header.{f}",
-                                       [f"{p0}.header.{g}", f"{rv}.header.{g}", f"{rv}.header.{f}"])
-        if v == "UNDECIDED":
-            ctx.undecided("R-MUSTDEF/identifiers", construct, bp.where(ca), detail, key=f"id:{f}")
-        else:
-            ctx.decide(v == "HOLDS", "R-MUSTDEF/identifiers", construct, bp.where(ca), detail,
-                       f"the answer's {f} is not the request's {f}: {detail}", key=f"id:{f}")
+    REQ = sym.S(p0)
+    RH = ("attr", REQ, "header")
+    paths = [p_ for p_ in sym.Interp(fold=lambda e: repo.fold(pm, e)).run(strip_doc(ca.body), sym.PathState({p0: REQ}, [], []))]
+    rets = [p_ for p_ in paths if p_.term == "return"]
+    # a command other than the three handled ones leaves the template unbound (UnboundLocalError at run time, as on the
+    # reference tree): such a path returns no answer and is outside this clause
+    rets = [p_ for p_ in rets if not (isinstance(p_.value, tuple) and p_.value[0] == "name")]
+    ctx.decide(len(rets) >= 3 and all(isinstance(p_.value, tuple) and p_.value[0] == "attr" for p_ in rets), "R-MUSTDEF/identifiers", construct,
+               bp.where(ca), "returns the template", "create_answer does not return a template object on every path", key="return",
+               nontrivial=False)
+    got = {}
+    for f in ("hop_by_hop", "end_to_end"):
+        bad = []
+        for p_ in rets:
+            T = p_.value
+            st_ = [e for e in p_.effects if e[0] == "storeattr" and e[1] == ("attr", T, "header") and e[2] == f]
+            if not st_:
+                bad.append(f"`{sym.show(T)}.header.{f}` is never assigned")
+            elif st_[-1][3] != ("attr", RH, f):
+                bad.append(f"`{sym.show(T)}.header.{f}` is assigned `{sym.show(st_[-1][3])}`")
+        ctx.decide(not bad and bool(rets), "R-MUSTDEF/identifiers", construct, bp.where(ca), f"answer.header.{f} = request.header.{f} on every path",
+                   f"the answer's {f} is not the request's {f}: {'; '.join(sorted(set(bad)))}", key=f"id:{f}")
+    for p_ in rets:
+        for c, tv in p_.conds:
+            if tv and isinstance(c, tuple) and c[0] == "cmp" and c[1] == "Eq" and ("attr", RH, "command_code") in (c[2], c[3]):
+                other = c[3] if c[2] == ("attr", RH, "command_code") else c[2]
+                got.setdefault(other, set()).add(sym.show(p_.value))
 
     ctx.clause = "2-command-template-table"
-    got = {}
-    for n in walk_no_nested(ca):
-        if isinstance(n, ast.If) and isinstance(n.test, ast.Compare) and ast.unparse(n.test.left) == f"{p0}.header.command_code":
-            c = ast.unparse(n.test.comparators[0])
-            for s in n.body:
-                if isinstance(s, ast.Assign) and ast.unparse(s.targets[0]) == rv:
-                    got[c] = ast.unparse(s.value)
     for c, (tmpl, code) in PAIRS.items():
         v = repo.fold(pm, ast.Name(id=c, ctx=ast.Load()))
         ctx.decide(isinstance(v, bytes) and int.from_bytes(v, "big") == code, "R-TABLE/command-template", construct, bp.where(ca),
                    f"{c} == {code}", f"{c} folds to {v!r}, expected {code}", key=f"const:{c}", nontrivial=False)
-        ctx.decide(got.get(c) == f"self.association.base.{tmpl}", "R-TABLE/command-template", construct, bp.where(ca),
-                   f"{c} -> base.{tmpl}", f"a request with command {c} is answered with template `{got.get(c)}` instead of base.{tmpl}",
+        ctx.decide(got.get(v) == {f"self.association.base.{tmpl}"}, "R-TABLE/command-template", construct, bp.where(ca),
+                   f"{c} -> base.{tmpl}", f"a request with command {c} is answered with template `{sorted(got.get(v, []))}` instead of base.{tmpl}",
                    key=f"map:{c}")
     # templates are built by the proxy from the right classes
     px = ctx.need(repo.cls("bromelia.proxy.DiameterBaseProxy"), "DiameterBaseProxy")
@@ -88,11 +97,25 @@ def check(ctx):
         # ---- 3 local origin -----
         ctx.clause = "3-local-origin"
         conn = [a.arg for a in ld.args.args][0]
-        dicts = [d for d in ast.walk(ld) if isinstance(d, ast.Dict)]
-        okd = bool(dicts)
-        for d in dicts:
-            kv = {k.value: ast.unparse(v) for k, v in zip(d.keys, d.values) if isinstance(k, ast.Constant)}
-            okd = okd and kv.get("origin_host") == f"{conn}.local_node.host_name" and kv.get("origin_realm") == f"{conn}.local_node.realm"
+        CONN = sym.S(conn)
+        okd, n_ct = True, 0
+        for p_ in sym.Interp(log_calls=True).run(strip_doc(ld.body), sym.PathState({conn: CONN}, [], [])):
+            for e in p_.effects:
+                if e[0] != "ecall" or not (isinstance(e[1], tuple) and e[1][0] == "call" and e[1][1] == ("name", ctors[0].func.id)):
+                    continue
+                n_ct += 1
+                kw = dict(e[1][3])
+                for a_ in e[1][2]:
+                    if isinstance(a_, tuple) and a_[0] == "star":
+                        pass
+                if "origin_host" not in kw:
+                    # keyword dictionary passed with **: the interpreter keeps it as a dict term
+                    for a_ in [v_ for k_, v_ in e[1][3] if k_ is None]:
+                        if isinstance(a_, tuple) and a_[0] == "dict":
+                            kw.update(dict(a_[1]))
+                okd = okd and kw.get("origin_host") == ("attr", ("attr", CONN, "local_node"), "host_name") \
+                    and kw.get("origin_realm") == ("attr", ("attr", CONN, "local_node"), "realm")
+        okd = okd and n_ct > 0
         ctx.decide(okd, "R-FLOW/local-origin", f"{px.qual}.load_{tmpl}", px.where(ld), "Origin-Host/Realm come from the local node",
                    "the template's Origin-Host/Origin-Realm are not the local node's configured identity", key=f"origin:{tmpl}")
         ctx.clause = "2-command-template-table"
@@ -175,8 +198,7 @@ def check(ctx):
         for s in walk_no_nested(fi.node):
             if isinstance(s, ast.Assign):
                 for t in s.targets:
-                    tt = ast.unparse(t)
-                    if tt.endswith(".header.hop_by_hop") or tt.endswith(".header.end_to_end"):
+                    if isinstance(t, ast.Attribute) and t.attr in ("hop_by_hop", "end_to_end"):
                         writers.append(fi.qual)
     allowed = {f"{bp.qual}.create_answer"}
     extra = sorted(set(writers) - allowed)
